@@ -134,8 +134,12 @@ SAssertAlts == { P("sassert", 0, <<T("_Static_assert"), T("("), E(3), T(","), T(
 DeclAlts == { P("decl", 0, <<N("declspecs", 0), N("initdecl", 0), T(";")>>),
               P("decl2", 1, <<N("declspecs", 0), N("initdecl", 0), T(","), N("initdecl", 0), T(";")>>),
               P("declnodtor", 1, <<N("tagspec", 0), T(";")>>),
-              P("typedef", 1, <<T("typedef"), N("declspecs", 1), N("declarator", 0), T(";")>>),
+              \* (the typedef declares `y`, so that it never clashes with the objects named `x`)
+              P("typedef", 1, <<T("typedef"), N("declspecs", 1), N("ptr", 0), T("y"), N("suffix", 0), T(";")>>),
               P("sassertdecl", 1, <<N("sassert", 0)>>) }
+\* the declaration of a for statement declares objects only (6.8.5p3)
+VDeclAlts == { P("vdecl", 0, <<N("declspecs", 0), N("initdecl", 0), T(";")>>),
+               P("vdecl2", 1, <<N("declspecs", 0), N("initdecl", 0), T(","), N("initdecl", 0), T(";")>>) }
 InitDeclAlts == { P("idecl", 0, <<N("declarator", 0)>>), P("idecl=", 1, <<N("declarator", 0), T("="), N("init", 0)>>) }
 \* ---------- statements; param: 1 = must be "closed" (followed by else), 0 = free
 S(c) == N("stmt", c)
@@ -146,7 +150,7 @@ StmtAlts(c) ==
     P("do", 1, <<T("do"), S(0), T("while"), T("("), E(1), T(")"), T(";")>>),
     P("for", 1, <<T("for"), T("("), E(1), T(";"), E(1), T(";"), E(1), T(")"), S(c)>>),
     P("for;;", 1, <<T("for"), T("("), T(";"), T(";"), T(")"), S(c)>>),
-    P("fordecl", 1, <<T("for"), T("("), N("decl", 0), E(1), T(";"), T(")"), S(c)>>),
+    P("fordecl", 1, <<T("for"), T("("), N("vdecl", 0), E(1), T(";"), T(")"), S(c)>>),
     P("switch", 1, <<T("switch"), T("("), E(1), T(")"), S(c)>>),
     P("case", 1, <<T("case"), E(3), T(":"), S(c)>>), P("default", 1, <<T("default"), T(":"), S(c)>>),
     P("label", 1, <<T("L"), T(":"), S(c)>>),
@@ -172,7 +176,7 @@ Alts(nt, p) ==
     [] nt = "direct" -> DirectAlts(p) [] nt = "suffix" -> SuffixAlts [] nt = "params" -> ParamsAlts [] nt = "paramdecl" -> ParamDeclAlts
     [] nt = "typename" -> TypenameAlts [] nt = "structdecl" -> StructDeclAlts [] nt = "enumerator" -> EnumeratorAlts
     [] nt = "init" -> InitAlts [] nt = "initlist" -> InitListAlts [] nt = "inititem" -> InitItemAlts [] nt = "sassert" -> SAssertAlts
-    [] nt = "decl" -> DeclAlts [] nt = "initdecl" -> InitDeclAlts [] nt = "stmt" -> StmtAlts(p) [] nt = "items" -> ItemsAlts
+    [] nt = "decl" -> DeclAlts [] nt = "vdecl" -> VDeclAlts [] nt = "initdecl" -> InitDeclAlts [] nt = "stmt" -> StmtAlts(p) [] nt = "items" -> ItemsAlts
     [] nt = "item" -> ItemAlts [] nt = "ext" -> ExtAlts [] nt = "tu" -> TUAlts
 
 Prelude == <<T("typedef"), T("int"), T("T"), T(";")>>
